@@ -41,6 +41,22 @@ T = {
              "operand type exactly unsigned long long (not uint64_t), value 0 reaching __builtin_clzll (also via log2p1/ceil2/countr_used)", ["C18", "C16"]),
  "M-C19-1": ("C19", "sqrt(scaled_integer) result exponent (Exponent-1)/2 instead of Exponent/2 (scaled_integer/sqrt.h)",
              "strictly positive even exponent", ["C19"]),
+ "M-C05-2": ("C05", "elastic subtract digit rule: max(Ld + Ls, Rd + Rs) instead of max(Ld, Rd) + (Ls | Rs) (elastic_tag/policy.h)",
+             "mixed signedness, the unsigned operand has strictly more digits, operand values near the extremes", ["C05"]),
+ "M-C06-2": ("C06", "is_overflow<shift_left_op, negative>: rhs < positive_digits instead of <= (overflow/is_overflow.h)",
+             "left operand exactly -1, count == digits of the result type (31/63): a false negative overflow under throwing/trapping", ["C06", "C07"]),
+ "M-C07-2": ("C07", "is_overflow<shift_left_op, positive> flattened, losing the rhs > 0 guard: lhs >> (positive_digits - 0) (overflow/is_overflow.h)",
+             "unsigned left operand at least int wide, positive, shift count exactly 0 (shift by the full width: UB, masked on x86 into a false overflow)", ["C07", "C06"]),
+ "M-C08-2": ("C08", "tie_to_pos_inf division: (rhs - neg)/2 rewritten as rhs/2 - neg (rounding/tie_to_pos_inf_rounding_tag.h)",
+             "tie_to_pos_inf, negative exact quotient, odd divisor magnitude r, |a| mod r == (r+1)/2", ["C08"]),
+ "M-C09-2": ("C09", "neg_inf scaled->coarser conversion narrows the rep before the right shift (scaled_integer/convert_operator.h)",
+             "neg_inf_rounding_tag, destination rep narrower than the source rep, source rep value not fitting the destination rep", ["C09"]),
+ "M-C11-2": ("C11", "the same change as M-C08-2, proposed independently for the static_integer/static_number property",
+             "explicit / on a static_integer/static_number with tie_to_pos_inf rounding, operands as for M-C08-2", ["C11", "C08"]),
+ "M-C13-2": ("C13", "integer to_chars_non_zero: the `length < 2` guard before writing '-' removed (charconv/to_chars.h)",
+             "negative value of a signed integer-family type and an EMPTY buffer (first == last): '-' and every digit written past last", ["C13"]),
+ "M-C14-2": ("C14", "integer to_chars no longer converts the value to native rounding before digit generation (charconv/to_chars.h)",
+             "rounding_integer / static_integer with nearest or tie_to_pos_inf rounding passed to to_chars, a non-leading digit d with 2d >= base", ["C14", "C13"]),
 }
 
 
